@@ -34,6 +34,8 @@ func main() {
 		cmdVerify(os.Args[2:])
 	case "prop":
 		cmdProp(os.Args[2:])
+	case "gen-contracts":
+		cmdGen(os.Args[2:])
 	default:
 		fmt.Fprintln(os.Stderr, "unknown command", os.Args[1])
 		os.Exit(2)
@@ -51,7 +53,11 @@ func cmdVerify(args []string) {
 	verbose := fs.Bool("v", false, "verbose")
 	dump := fs.String("dump", "", "directory to keep failed scripts")
 	verifRoot := fs.String("verif", "/verif", "verif root")
+	croot := fs.String("croot", "", "root directory holding contract files (default: the repo)")
 	fs.Parse(args)
+	if *croot == "" {
+		*croot = *repo
+	}
 
 	v := NewVerifier()
 	v.pinned = loadPinned(*verifRoot + "/contracts/params.json")
@@ -78,7 +84,7 @@ func cmdVerify(args []string) {
 			}
 			v.contracts[rel+"."+c.Func] = c
 		}
-	} else if err := v.LoadContracts(*repo, pkg.Pkg.Path()); err != nil {
+	} else if err := v.LoadContracts(*croot, pkg.Pkg.Path()); err != nil {
 		fmt.Fprintln(os.Stderr, err)
 		os.Exit(2)
 	}
